@@ -6,8 +6,9 @@
 #   3. the checker's own controls: overlay mutants that must make the targeted rule fire (reported in
 #      the evidence; they validate the checker, never the property),
 #   4. self-tests on overlays (tools/selftest.py): the stored behaviour-preserving refactorings of this
-#      property's code must leave its rules silent, and the stored seeded changes that still apply must
-#      be reported. /repo is never modified: patches are applied to scratch copies and overlaid.
+#      property's code (and the property-preserving functional changes, refactors/PROP-g*.diff) must leave its
+#      rules silent, the stored near misses of accepted new forms (negvariants/) and the stored seeded changes
+#      that still apply must be reported. /repo is never modified: patches are applied to scratch copies and overlaid.
 set -u
 cd "$(dirname "$0")"
 PROP="$1"
@@ -40,13 +41,15 @@ done
 # 3. controls
 CTL=$(python3 tools/controls.py "$PROP" 8 2>/dev/null || echo '{"controls":[],"fired":0,"missed":0,"skipped":0}')
 # 4. self-tests on overlays
-SELF=$(python3 tools/selftest.py "$PROP" 2>/dev/null || echo '{"refactorings":{"silent":0,"alarmed":[],"stale":0},"seeded":{"caught":0,"missed":[],"declared_out_of_reach":[],"stale":0}}')
+SELF=$(python3 tools/selftest.py "$PROP" 2>/dev/null || echo '{"refactorings":{"silent":0,"alarmed":[],"stale":0},"near_misses":{"fired":0,"silent":[],"stale":0},"seeded":{"caught":0,"missed":[],"declared_out_of_reach":[],"stale":0}}')
 python3 - "$EXTRA" "$NV" "$CTL" "$CFG" "$SELF" "${FAILS[@]:-}" <<'PY'
 import json, sys
 extra, nv, ctl, cfg, selft = sys.argv[1], sys.argv[2], json.loads(sys.argv[3]), sys.argv[4], json.loads(sys.argv[5])
 fails = [f for f in sys.argv[6:] if f]
 for a in selft["refactorings"]["alarmed"]:
     fails.append("false alarm on the behaviour-preserving refactoring refactors/%s: %s" % (a["patch"], a["first"]))
+for m in selft.get("near_misses", {}).get("silent", []):
+    fails.append("the near miss negvariants/%s of an accepted new form is not reported" % m)
 for m in selft["seeded"]["missed"]:
     fails.append("the stored seeded change seeded/%s is no longer reported by this property's check" % m)
 json.dump({"self_tests": selft,
